@@ -55,7 +55,8 @@ type Hub struct {
 	// list of currently known/reported mDNS entries
 	knownMdnsEntries []*api.MdnsEntry
 
-	hasStarted bool
+	hasStarted  bool
+	hasShutdown bool
 
 	muxCon        sync.Mutex
 	muxConAttempt sync.Mutex
@@ -107,6 +108,11 @@ func (h *Hub) Start() {
 
 // close all connections
 func (h *Hub) Shutdown() {
+	// connection attempts that are still pending must not be started anymore
+	h.muxStarted.Lock()
+	h.hasShutdown = true
+	h.muxStarted.Unlock()
+
 	h.mdns.Shutdown()
 
 	// closing a connection removes it from the map (possibly on another goroutine),
